@@ -46,6 +46,24 @@ theorem header_perturbation_refused (L L' : Layout) (bs : List Byte) (a : Arr Po
   · exact ⟨_, decode_truncated L' bs hlt⟩
   · exact ⟨_, decode_extended L' bs (by omega) ht⟩
 
+/-- without a stated data length the two readers coincide -/
+theorem decodeDeclared_none (L : Layout) (bs : List Byte) : decodeDeclared L none bs = decode L bs := rfl
+
+/-- a format that states the byte length of its data section (TNMR): a header whose extents imply another
+    length is refused even though trailing sections are allowed — so a perturbed extent can never be absorbed
+    by the trailer and re-read at the wrong stride -/
+theorem declared_mismatch_refused (L' : Layout) (n : Nat) (bs : List Byte) (h : n ≠ L'.dataBytes) :
+    decodeDeclared L' (some n) bs = .error .inconsistent := by
+  unfold decodeDeclared; simp [h]
+
+theorem declared_perturbation_refused (L L' : Layout) (bs : List Byte) (hchg : L'.dataBytes ≠ L.dataBytes) :
+    decodeDeclared L' (some L.dataBytes) bs = .error .inconsistent :=
+  declared_mismatch_refused L' _ bs (fun h => hchg h.symm)
+
+/-- and with the right stated length it is the strict reader -/
+theorem declared_ok (L : Layout) (bs : List Byte) : decodeDeclared L (some L.dataBytes) bs = decode L bs := by
+  unfold decodeDeclared; simp
+
 /-- an accepted file always yields an array of the declared logical shape with one point per position -/
 theorem decode_ok_shape (L : Layout) (bs : List Byte) (a : Arr Point) (h : decode L bs = .ok a) :
     a.shape = L.logicalShape ∧ a.WF := by
